@@ -1,7 +1,7 @@
 """C06 — private objects are encrypted at rest under a key only a PIN unlocks."""
 import re
 from ..main import k_suite, Violation, parse_mismatch, Trace
-from .. import gen
+from .. import gen, core
 
 LEAN_MODULES = ["Shm.Props.C06"]
 GEN_TABLES = ["AttrUpdate.lean", "ClassTable.lean", "StoreSample.lean", "Access.lean"]
@@ -65,6 +65,25 @@ def run_k(ctx, kres):
     # every class x CKA_PRIVATE omitted / false / true (the class default decides what is private), label / id changes, copies made private: directory decoded after each
     from .. import gen2
     v += k_suite(ctx, kres, "K06-class-matrix(exhaustive)", [Trace("class-matrix", gen2.c06_class_matrix(tables, ctx.seed))], in_projection, sig_of=sig_of, direct=direct, shrink_budget=60)
+    # under threads (the deterministic scheduler of C18): C_UnwrapKey of a private token key pre-empted at its mutex callbacks while another thread logs the token out /
+    # closes its session / searches: the key value, announced to the judge, must never be in the token directory in the clear
+    import concurrent.futures
+    from . import C18
+    kres["suites"] += 1
+    scen = [s for s in gen.thread_scenarios() if s[0].startswith("unwrap-private/")]
+    with concurrent.futures.ThreadPoolExecutor(core.JOBS) as ex:
+        bases = list(ex.map(lambda s: C18.run_one(s[1], 1, 0, -1, "", False), scen))
+        jobs = [(name, ops, w, n) for (name, ops, w), b in zip(scen, bases) for n in C18.sample_points(b["yields"].get(0, 0), 18 if ctx.quick else 400)]
+        res = list(ex.map(lambda j: (j, C18.run_one(j[1], 1, 0, -1, "0:%d:%d" % (j[3], j[2]), False)), jobs))
+    seen = set()
+    for (name, ops, w, n), r in res:
+        kres["evaluations"] += r["ncalls"]
+        kres["hist"]["threads:unwrap-private"] = kres["hist"].get("threads:unwrap-private", 0) + 1
+        for s, t in r["hard"]:
+            if s == "plaintext-on-disk" and name not in seen:
+                seen.add(name)
+                v.append(Violation("threads.plaintext-on-disk.%s" % name.rsplit("/", 1)[0], "scenario %s, thread 0 pre-empted at its callback %d: %s" % (name, n, t),
+                                   C18.header("systematic", name, 1, 0, -1, "0:%d:%d" % (n, w)) + ops))
     return v
 
 
@@ -87,3 +106,23 @@ LEVEL_TEXT = ("Lean 4 theorems (lean/Shm/Props/C06.lean, Lemmas/Enc.lean, Lemmas
 LEVEL_NOTE = ("Trusted: Lean kernel + standard axioms; translator tools/translate_attrs.py (bodies it does not recognise become `unknown`, for which the theorem fails); the creation "
               "paths of SoftHSM.cpp are hand-modelled and validated by K06; C_UnwrapKey/C_DeriveKey not yet in the model.")
 TECHNIQUE = "Lean 4 invariant over all reachable states built on a syntactic check of source-translated programs; independent Lean decoder+decryptor on real directories"
+
+
+def replay(ctx, path):
+    """thread replays (`## threads ...`) are re-run under the deterministic scheduler of C18 and judged by the disk oracle; everything else is an ordinary op file"""
+    text = open(path).read()
+    m = re.search(r"## threads kind=(\S+) name=(\S+) seed=(\S+) budget=(\S+) pct=(\S+) force=(\S+)", text)
+    if not m:
+        import sys
+        from .. import main as _m
+        mod = sys.modules[__name__]; saved = mod.replay; del mod.replay
+        try: return _m.replay(mod, ctx, path)
+        finally: mod.replay = saved
+    from . import C18
+    ops = "\n".join(l for l in text.splitlines() if not l.startswith("##")) + "\n"
+    r = C18.run_one(ops, int(m.group(3)), int(m.group(4)), int(m.group(5)), "" if m.group(6) == "-" else m.group(6), False)
+    print(r["log"])
+    bad = [t for s, t in r["hard"] if s == "plaintext-on-disk"]
+    for t in bad: print("JUDGEMENT: violates C06: %s" % t)
+    if not bad: print("JUDGEMENT: no violation of C06 on this replay")
+    return 1 if bad else 0
